@@ -70,6 +70,9 @@ func TestC16_Monitor(t *testing.T) {
 		observeDone := func(what string) {
 			w.waitFor(m.mon.Done(), "monitor Done() after "+what)
 			atomic.StoreInt32(&m.cb.doneSeen, 1)
+			if n := atomic.LoadInt32(&m.cb.inflight); n > 0 {
+				w.fail("the monitor's Done() is closed (%s) while %d callback(s) are still running", what, n)
+			}
 		}
 		var initWant []string
 		closed := false
@@ -140,8 +143,18 @@ func TestC16_Monitor(t *testing.T) {
 			m.mon.Close()
 			w.markClosed(m)
 			if m.cb.blocked() {
-				// Done cannot close while the handler holds the monitor's goroutine: release it
-				time.Sleep(time.Duration(rapid.IntRange(0, 300).Draw(t, "holdus")) * time.Microsecond)
+				// Done must not close while a callback is still running inside the blocked handler
+				hold := time.Duration(rapid.IntRange(0, 3000).Draw(t, "holdus")) * time.Microsecond
+				inCallback := atomic.LoadInt32(&m.cb.inflight) > 0
+				tm := time.NewTimer(hold)
+				select {
+				case <-m.mon.Done():
+					if inCallback && atomic.LoadInt32(&m.cb.inflight) > 0 {
+						w.fail("the monitor's Done() closed while a callback was still running (handler blocked inside it)")
+					}
+				case <-tm.C:
+				}
+				tm.Stop()
 				m.cb.unblock()
 			}
 			observeDone(what)
